@@ -434,3 +434,126 @@ def run_c20(tier, seed, replay=None):
         return finish(pid, tier, seed, t0, cov, assumptions, diffs, lambda d: "refcount/" + d["what"], known, lambda d: d)
     finally:
         sc.close()
+
+
+# ---------------------------------------------------------------------------
+# C17 / C18: OutFile
+
+def out_prop(item):
+    k = item[0]
+    if k in ("async-result", "incomplete-async"):
+        return "C18"
+    try:
+        if k == "result":
+            cancel, cw, ef = item[4], item[5], item[6]
+        elif k == "file":
+            cancel, cw, ef = item[5], item[6], 0
+        else:
+            cancel, cw, ef = item[2], item[3], 0
+    except IndexError:
+        return "C17"
+    if ef:
+        return "C19"
+    return "C18" if (cancel != 0 or cw != 0) else "C17"
+
+
+def out_run(zx, sc, seed, quick, name):
+    tp = sc.path("out-%s.ndjson" % name)
+    args = [zx, "outfile", "-seed", str(seed), "-dir", sc.path("ofsegs-" + name), "-out", tp]
+    if quick:
+        args.append("-quick")
+    p = subprocess.run(args, stdout=subprocess.PIPE, stderr=subprocess.STDOUT, text=True, timeout=7200)
+    if p.returncode != 0:
+        raise Inconclusive("harness outfile failed: " + p.stdout[-1500:])
+    outp, st = tlc(sc, "TraceOut", cfg="TraceOut.cfg", env={"TRACE": tp}, workers=1, timeout=3000, outname="traceout-%s.out" % name)
+    mism, acc, rej = [], None, None
+    for tag, payload in printed(outp, ("MISMATCH", "ACCEPTED", "REJECTED-AT")):
+        if tag == "MISMATCH":
+            mism.append(json.loads(payload))
+        elif tag == "ACCEPTED":
+            acc = payload
+        else:
+            rej = payload
+    if acc is None:
+        raise Inconclusive("TraceOut did not consume the trace (rejected at %s): %s" % (rej, tlc_errors(outp)[:2]))
+    return tp, kv(p.stdout), mism, st
+
+
+def run_out(pid, tier, seed, replay=None):
+    t0 = time.time()
+    q = tier == "quick"
+    sc = Scratch()
+    try:
+        zx = build_harness(("verif",))
+        known = load_known()
+        if replay:
+            seed = json.load(open(replay)).get("seed", seed)
+        models = []
+        for cfg in ("OutFilePersist.cfg", "OutFileMerge.cfg"):
+            outp, st = tlc(sc, "OutFile", cfg=cfg, workers=8, timeout=1800, outname=cfg + ".out")
+            errs = tlc_errors(outp)
+            if errs:
+                raise Inconclusive("OutFile model (%s): %s" % (cfg, "; ".join(errs[:3])))
+            models.append((cfg, st))
+        log("G: OutFile: " + ", ".join("%s %d states" % (c, s["distinct_states"]) for c, s in models) +
+            " (OkMeansComplete, ErrMeansNoFile, FaultSurfaces, CancelSurfaces, EngineSurfaces hold)")
+        tp, rs, mism, vst = out_run(zx, sc, seed, q, "a")
+        log("T/V: %d programs, %d fault/cancel plans executed on the real code and validated by TLC in %.0fs; mismatching plans: %d" %
+            (rs.get("programs", 0), rs.get("plans", 0), vst["wall_s"], len(mism)))
+        if rs.get("plans", 0) == 0:
+            raise Inconclusive("vacuous outfile run")
+        mine = [(m, it) for m in mism for it in m["bad"] if out_prop(it) == pid]
+        other = [(m, it) for m in mism for it in m["bad"] if out_prop(it) != pid]
+        for m, it in other[:3]:
+            log("NOTE: mismatch attributed to %s, not to this check: %s" % (out_prop(it), trunc(it, 200)))
+        paths = []
+        if mine:
+            # reproduce once more from the same seed before reporting
+            tp2, rs2, mism2, _ = out_run(zx, sc, seed, q, "b")
+            again = {(m["prov"], json.dumps(it)) for m in mism2 for it in m["bad"]}
+            lines = open(tp).read().splitlines()
+            seen = set()
+            for m, it in mine:
+                key = "%s/%s" % (m["prov"], it[0])
+                if (m["prov"], json.dumps(it)) not in again and it[0] not in ("async-result", "incomplete-async"):
+                    log("UNREPRODUCED: %s" % trunc(it, 200))
+                    continue
+                if key in seen or len(paths) >= 3:
+                    continue
+                seen.add(key)
+                ev = json.loads(lines[m["l"] - 1])
+                log("mismatch %s: real=%s plan=%s" % (key, trunc(ev, 300), trunc(it, 200)))
+                paths.append(save_replay(pid, seed, len(paths), {"property": pid, "key": key, "family": "outfile", "seed": seed, "event": ev, "detail": it}))
+            if not paths:
+                raise Inconclusive("violation candidates did not reproduce")
+        if replay:
+            if paths:
+                log("VIOLATION property=%s replay=%s" % (pid, replay))
+                return 1
+            log("replay: no violation of %s on the current tree" % pid)
+            return 0
+        samples = []
+        with open(tp) as fh:
+            for line in fh:
+                if '"ev":"out"' in line and len(samples) < 3 and ('"fault":-1' not in line or pid == "C18"):
+                    samples.append(json.loads(line))
+        cov = {"family": "outfile", "states": sum(s["distinct_states"] for _, s in models) + vst["distinct_states"],
+               "transitions": sum(s["states_generated"] for _, s in models) + vst["states_generated"],
+               "traces_validated_against_impl": rs["plans"], "samples": samples,
+               "model": {"module": "OutFile.tla", "cfgs": [c for c, _ in models],
+                         "invariants": ["OkMeansComplete", "ErrMeansNoFile", "FaultSurfaces", "CancelSurfaces", "EngineSurfaces"]},
+               "programs": rs["programs"], "plans": rs["plans"],
+               "configurations": "Persist, WriteTo (failing writer at byte offsets) and Merge (RLIMIT_FSIZE at byte offsets, merge buffer 16 / 64 / 1 MiB; close channel found closed at every poll via the verif hook, closed before the call, from inside the i-th write callback, by another goroutine after a random delay, and combined with a write fault)",
+               "evaluations": rs["plans"], "distinct_nontrivial": rs["plans"],
+               "rule": "one evaluation = one run of the real operation under one fault / cancellation plan, outcome compared with OutFile's RunToEnd on the program recorded from the fault-free run", "exhaustive": False}
+        assumptions = ["fsync and close failures cannot be injected", "the footer is 5 x 8 + 3 x 4 bytes written as 8 checked writes (documented layout)",
+                       "RLIMIT_FSIZE + ignored SIGXFSZ give a partial write followed by EFBIG at the exact offset"]
+        write_evidence(pid, tier, seed, cov, assumptions, time.time() - t0, len(paths))
+        for p in paths:
+            log("VIOLATION property=%s replay=%s" % (pid, p))
+        if paths:
+            return 1
+        log("OK %s: held on everything explored (%.0fs)" % (pid, time.time() - t0))
+        return 0
+    finally:
+        sc.close()
